@@ -437,7 +437,33 @@ def gen(rng, idx, tier):
     case["stratum"] = stratum
     case["select"] = select
     case["ufo"] = ufo
+    # the interpolatable variants (one call on several compatible masters, WITHOUT an
+    # instantiator - the UFO-list API): every master must keep its own rendering
+    if (stratum == "default" and filt in ("decompose", "decomposeTransformed", "flatten")
+            and rng.random() < 0.2):
+        case["interp"] = rng.choice([2, 3])
+        case["target"] = rng.choice(["font", "glyphset_copy"])
+        if select.get("kind") == "predicate":
+            case["select"] = {"kind": "all"}
     return case
+
+
+def other_master(glyphs, k):
+    """A compatible master: same structure and 2x2 parts, other offsets / points / advances."""
+    import copy
+    out = copy.deepcopy(glyphs)
+    for gi, g in enumerate(out):
+        g["width"] = g["width"] + 10 * k
+        for c in g["contours"]:
+            for p in c:
+                p[0] += 7 * k
+                p[1] -= 3 * k
+        for ci, c in enumerate(g["components"]):
+            c["t"] = list(c["t"][:4]) + [c["t"][4] + (13 + gi + 5 * ci) * k,
+                                         c["t"][5] - (9 + 2 * gi) * k]
+        for a in g["anchors"]:
+            a["x"] += 4 * k
+    return out
 
 
 def sample_view(case):
@@ -583,7 +609,11 @@ def check_decomposition(ctx, before, after, included):
                 if not same_contours(g["contours"], a["contours"]):
                     ctx.bad("flatten_changed_contours", glyph=name)
                 nested = [c["base"] for c in a["components"] if S.component_only(after[c["base"]])]
-                if nested:
+                if nested and case.get("interp") and g["contours"]:
+                    # the interpolatable variant leaves glyphs that mix contours and components
+                    # alone (they are decomposed later); only their rendering is judged
+                    ctx.bump("interp_mixed_glyph_not_flattened")
+                elif nested:
                     ctx.bad("flatten_left_nested", glyph=name, nested=nested)
                 # simple / mixed bases are kept as references, in order
                 kept_before = [c for c in g["components"] if not S.component_only(before[c["base"]])]
@@ -868,9 +898,60 @@ def make_filter(case):
     return cls(**kw)
 
 
+def run_interpolatable(case):
+    """IFilter variant applied once to 2-3 compatible masters (no instantiator)."""
+    from ufo2ft.filters.decomposeComponents import DecomposeComponentsIFilter
+    from ufo2ft.filters.decomposeTransformedComponents import (
+        DecomposeTransformedComponentsIFilter,
+    )
+    from ufo2ft.filters.flattenComponents import FlattenComponentsIFilter
+    from ufo2ft.util import _GlyphSet
+
+    ctx = Ctx(case)
+    cls = {"decompose": DecomposeComponentsIFilter,
+           "decomposeTransformed": DecomposeTransformedComponentsIFilter,
+           "flatten": FlattenComponentsIFilter}[case["filter"]]
+    specs = [case["ufo"]["glyphs"]] + [other_master(case["ufo"]["glyphs"], k)
+                                       for k in range(1, case["interp"])]
+    fonts = [build_ufo({"glyphs": g, "info": case["ufo"]["info"]}, case["lib"]) for g in specs]
+    sets = None
+    if case["target"] != "font":
+        sets = [_GlyphSet.from_layer(f, copy=True) for f in fonts]
+    ctx.bump("interpolatable_runs")
+    ctx.bump("lib_" + case["lib"])
+    ctx.bump("stratum_" + case["stratum"])
+    try:
+        cls(**filter_kwargs(case["select"]))(fonts, sets)
+        afters = [S.read_glyphset(x) for x in (sets if sets is not None else fonts)]
+    except Exception:  # noqa: BLE001
+        ctx.bad("unexpected_exception", trace=traceback.format_exc()[-3000:])
+        return {"status": "violated", "violations": ctx.violations, "counters": ctx.counters}
+    ctx.bump("evaluated_" + CLASSNAME[case["filter"]] + "_interpolatable")
+    for mi, (gl, after) in enumerate(zip(specs, afters)):
+        before = {}
+        for g in gl:
+            b = dict(g)
+            b.setdefault("height", 0)
+            before[g["name"]] = b
+        included = {n for n, g in before.items() if selected(g, case["select"])}
+        if set(after) != set(before):
+            ctx.bad("glyph_set_changed", master=mi, added=sorted(set(after) - set(before)),
+                    removed=sorted(set(before) - set(after)))
+            continue
+        n0 = len(ctx.violations)
+        check_decomposition(ctx, before, after, included)
+        for v in ctx.violations[n0:]:
+            v["detail"]["master"] = mi
+        ctx.bump("interpolatable_masters_compared")
+    return {"status": "violated" if ctx.violations else "held", "violations": ctx.violations,
+            "counters": ctx.counters, "nontrivial": ctx.nontrivial}
+
+
 def run(case):
     from ufo2ft.util import _GlyphSet
 
+    if case.get("interp"):
+        return run_interpolatable(case)
     ctx = Ctx(case)
     spec = case["ufo"]
     before = {}
